@@ -128,7 +128,9 @@ static inline int sline_empty(struct sline *sl)
 
 static inline int sline_avail(struct sline *sl)
 {
-    return sl->cap - sl->len;
+    // The last byte of the buffer is reserved for the terminator written by
+    // sline_getline (same bound as in sline_putchar).
+    return sl->cap - 1 - sl->len;
 }
 
 static inline int sline_size(struct sline *sl)
